@@ -29,11 +29,13 @@ class Real:
         self.retain = retain
         self.accepted_nd = set()          # non-daemon members the group accepted
         self.app_consumed = []            # what next_done() gave the application before the join
+        self.base_cancelling = {}         # cancellations a member absorbed on its own account
         # members handed to the constructor: futures that are already finished
         self.init_ids = []
         futs = []
-        for k, (dm, oc) in enumerate(init):
-            futs.append(self.mk_done(3000 + k, dm, oc))
+        for k, ent in enumerate(init):
+            dm, oc = ent[0], ent[1]
+            futs.append(self.mk_done(3000 + k, dm, oc, len(ent) > 2 and ent[2]))
             self.init_ids.append(3000 + k)
             if not dm:
                 self.accepted_nd.add(3000 + k)
@@ -47,6 +49,17 @@ class Real:
         self.spawn_errors = 0
 
     async def member(self, tid, react):
+        if react == 'veteran':
+            # a member with a history: it once absorbed a cancellation of its own (what an expired and handled
+            # timeout of aiorpcX leaves behind: Task.cancelling() stays non-zero for the rest of its life)
+            me = asyncio.current_task()
+            asyncio.tasks._PyTask.cancel(me)
+            self.base_cancelling[me] = me.cancelling()
+            try:
+                await asyncio.sleep(0)
+            except CancelledError:
+                pass
+            react = 'reraise'
         try:
             instr = await self.go[tid]
         except CancelledError:
@@ -71,8 +84,9 @@ class Real:
             return instr[1]
         raise KeyError
 
-    def mk_done(self, tid, daemon, oc):
-        """a future that has already finished with the given outcome"""
+    def mk_done(self, tid, daemon, oc, foreign=False):
+        """a future that has already finished with the given outcome (foreign: not made by aiorpcX's spawn - no
+        _daemon attribute; such a task is an ordinary member)"""
         f = self.loop.create_future()
         if oc == 'Canc':
             f.cancel()
@@ -81,13 +95,14 @@ class Real:
             f.exception()            # retrieved: no 'never retrieved' report at collection
         else:
             f.set_result(None if oc == 'RetNone' else 7)
-        f._daemon = daemon
+        if not (foreign and not daemon):
+            f._daemon = daemon
         self.ids[f] = tid
         return f
 
-    def add_done(self, tid, daemon, oc):
+    def add_done(self, tid, daemon, oc, foreign=False):
         """TaskGroup.add_task() of an already finished future; RuntimeError if the group refuses"""
-        f = self.mk_done(tid, daemon, oc)
+        f = self.mk_done(tid, daemon, oc, foreign)
         try:
             try:
                 self.g.add_task(f).send(None)
@@ -120,7 +135,16 @@ class Real:
     def _mk_member(self, tid, react, daemon):
         self.go[tid] = self.loop.create_future()
         self.go2[tid] = self.loop.create_future()
-        coro = self.g.spawn(self.member(tid, react), daemon=daemon)
+        foreign = react.startswith('foreign:')
+        if foreign:
+            # a task made with the event loop's own create_task (no _daemon attribute), then add_task(): an ordinary member
+            react = react.split(':', 1)[1]
+
+            async def adopt():
+                await self.g.add_task(self.loop.create_task(self.member(tid, react)))
+            coro = adopt()
+        else:
+            coro = self.g.spawn(self.member(tid, react), daemon=daemon)
         orig = self.loop.create_task
 
         def ct(c, **kw):
@@ -226,7 +250,8 @@ class Real:
                 'finished': sorted(i for t, i in self.ids.items() if i != 0 and t.done()),
                 'queue': q, 'jdone': bool(self.J is not None and self.J.done()),
                 'jcancelled': bool(self.J is not None and self.J.done() and self.J.cancelled()),
-                'cancelreq': sorted(i for t, i in self.ids.items() if i != 0 and not t.done() and t.cancelling() > 0)}
+                'cancelreq': sorted(i for t, i in self.ids.items() if i != 0 and not t.done()
+                                    and t.cancelling() > self.base_cancelling.get(t, 0))}
 
 
 def run_case(case):
@@ -234,7 +259,8 @@ def run_case(case):
     try:
         trace = []
         oracle = {'join_end': None}
-        for k, (dm, oc) in enumerate(case.get('init', ())):
+        for k, ent in enumerate(case.get('init', ())):
+            dm, oc = ent[0], ent[1]
             trace.append([['spawn', 3000 + k, dm, oc], R.snapshot() if k == len(case['init']) - 1 else None])
         for i, m in enumerate(case['members']):
             tid = i + 1
@@ -284,7 +310,7 @@ def run_case(case):
                 # somebody adds a task that has already finished (add_task)
                 new = 4000 + sum(1 for l, _ in trace if l[0] == 'spawn' and 4000 <= l[1] < 5000)
                 try:
-                    R.add_done(new, act[1], act[2])
+                    R.add_done(new, act[1], act[2], len(act) > 3 and act[3])
                 except RuntimeError:
                     pass
                 label = ['spawn', new, act[1], act[2]]
@@ -365,6 +391,11 @@ def run_case(case):
                'retained': None}
         if g.joined and case.get('retain'):
             res['retained'] = sorted(R.ids.get(t, -1) for t in g.tasks) == sorted(R.accepted_nd)
+        # the state in which the scenario ends
+        fs = R.snapshot()
+        res['final'] = {'started': started, 'jdone': fs['jdone'], 'quiescent': not any(not h._cancelled for h in R.loop._ready),
+                        'entered': R.entered, 'exiting': R.exiting,
+                        'live_not_requested': [t for t in live() if t not in fs['cancelreq']], 'cancelreq': fs['cancelreq']}
         # let everything finish so that no task is left behind
         for t in list(R.ids):
             if not t.done():
@@ -430,8 +461,11 @@ def gen_case(rng, opts=None):
     opts = opts or {}
     n = rng.randint(1, 4)
     nd = rng.randint(0, 2)
-    reacts = opts.get('reacts', ['reraise', 'reraise', 'reraise', 'slow', 'swallow', 'spawn', 'spawnd'])
+    reacts = opts.get('reacts', ['reraise', 'reraise', 'reraise', 'slow', 'swallow', 'spawn', 'spawnd', 'veteran'])
     members = [{'react': rng.choice(reacts), 'daemon': i >= n} for i in range(n + nd)]
+    for mb in members:
+        if not mb['daemon'] and rng.random() < 0.12:
+            mb['react'] = 'foreign:' + mb['react']
     actions = []
     ncancel = rng.choice([0, 0, 1, 2])
     for _ in range(rng.randrange(10, 120)):
@@ -454,7 +488,7 @@ def gen_case(rng, opts=None):
         elif r < 0.982:
             actions.append(['appnext'])
         elif r < 0.99:
-            actions.append(['addfin', rng.random() < 0.25, rng.choice(['RetNone', 'RetVal', 'RetVal', 'Exc', 'Canc'])])
+            actions.append(['addfin', rng.random() < 0.25, rng.choice(['RetNone', 'RetVal', 'RetVal', 'Exc', 'Canc']), rng.random() < 0.3])
         else:
             actions.append(['tick'])
     if rng.random() < 0.25:
@@ -466,7 +500,7 @@ def gen_case(rng, opts=None):
                                                ['tick'], ['tick'], ['tick'])]
         actions = pre + first + [['appnext']] * rng.randrange(1, 4) + actions[k:]
     actions += [['start']] + [['tick']] * 3
-    init = [[rng.random() < 0.25, rng.choice(['RetNone', 'RetVal', 'RetVal', 'Exc', 'Canc'])]
+    init = [[rng.random() < 0.25, rng.choice(['RetNone', 'RetVal', 'RetVal', 'Exc', 'Canc']), rng.random() < 0.3]
             for _ in range(rng.choice([0, 0, 0, 0, 1, 2]))]
     return {'policy': rng.choice(['all', 'all', 'any', 'object', 'none']), 'retain': rng.random() < 0.4, 'init': init,
             'mode': rng.choice(['join', 'join', 'aexit', 'aexit_exc']), 'members': members, 'actions': actions}
